@@ -185,7 +185,16 @@ def run(repo: Repo, L: Ledger, tier: str):
                     tg = [n.target]
                 for t in tg:
                     if is_name(t, p):
-                        L.fail("R3", f"{f.short}:{p}", f"flag parameter '{p}' is rebound: {norm(n)}", f.loc(n))
+                        val = getattr(n, "value", None)
+                        always_on = val is not None and try_fold(val, default=None) is True and any(n is s_ for s_ in f.node.body)
+                        if always_on:
+                            # unconditional, at the top level of the function: is anything that could stop the run before it?
+                            before = f.node.body[: next(i for i, s_ in enumerate(f.node.body) if s_ is n)]
+                            stops = any(isinstance(x, ast.Raise) or (isinstance(x, ast.Call) and ((dotted(x.func) or "") in ("sys.exit", "exit", "quit") or repo.resolve_call(x, f)[0])) for s_ in before for x in ast.walk(s_))
+                            if not stops:
+                                L.fail("R3", f"{f.short}:{p}", f"flag parameter '{p}' is unconditionally switched on ({norm(n)}): --no-clobber is ignored and existing files are overwritten", f.loc(n))
+                                continue
+                        raise AnalysisError(f"C16.R3 {f.short}: flag parameter '{p}' is recomputed ('{norm(n)[:70]}'): whether the new value still protects every existing output is not decided")
 
     # ---- R1 / R2 / R4: write-capable sites
     n_sites = n_governed = 0
@@ -210,6 +219,9 @@ def run(repo: Repo, L: Ledger, tier: str):
             if f.module.name in EXEMPT_MODULES:
                 L.ok("R1", inst, "exempt: " + EXEMPT_MODULES[f.module.name], f.loc(call))
                 continue
+            if site == "open" and _wraps_descriptor(f, call):
+                L.ok("R1", inst, "wraps a descriptor opened by os.open (that call carries the create/truncate decision)", f.loc(call))
+                continue
             if site == "open":
                 ctl = _control_flag_facts(call, mine)
                 governed = bool(names_in(mode) & (mine | _locals_depending_on(f, mine))) or bool(ctl)
@@ -222,6 +234,9 @@ def run(repo: Repo, L: Ledger, tier: str):
                 _check_handler(L, f, call)
             elif site == "logging.basicConfig":
                 n_governed += _check_logging(L, f, call, mine)
+            elif site == "os.open":
+                _check_os_open(L, f, call, mine)
+                n_governed += 1
             else:
                 L.fail("R1", inst, f"file-system mutator '{site}' reachable from the CLI outside the clobber-governed open", f.loc(call))
     L.floor("R1", "file-writing sites reachable from pretext-to-asm", n_sites, 4)
@@ -229,6 +244,21 @@ def run(repo: Repo, L: Ledger, tier: str):
     L.extra["reachable_functions"] = len(reach)
     L.extra["flag_edges"] = n_edges
     L.assume("O_EXCL semantics of open(..., 'x') and of logging.FileHandler(mode='x') are those of CPython/POSIX")
+
+
+def _wraps_descriptor(f, call) -> bool:
+    """open(fd, mode) / os.fdopen(fd, mode) with fd the result of os.open in the same function"""
+    from ..util import local_defs
+
+    if (dotted(call.func) or "") not in ("open", "io.open", "os.fdopen") or not call.args:
+        return False
+    a0 = call.args[0]
+    if isinstance(a0, ast.Call) and dotted(a0.func) == "os.open":
+        return True
+    if isinstance(a0, ast.Name):
+        ds = local_defs(f, a0.id)
+        return bool(ds) and all(isinstance(d_, ast.Call) and dotted(d_.func) == "os.open" for d_ in ds)
+    return False
 
 
 def _is_str_method(call):
@@ -308,10 +338,100 @@ def _control_flag_facts(node, carriers) -> dict:
                 for t, v in cond_facts(a.test, side):
                     if isinstance(t, ast.Name) and t.id in carriers:
                         out.setdefault(t.id, v)
+        # guard clauses earlier in the same block: `if <test>: ...; sys.exit()/raise/return` -> not <test> holds afterwards
+        for fld in ("body", "orelse", "finalbody", "handlers"):
+            blk = getattr(a, fld, None)
+            if isinstance(blk, list) and any(cur is s_ for s_ in blk):
+                for s_ in blk:
+                    if s_ is cur:
+                        break
+                    if isinstance(s_, ast.If) and not s_.orelse and s_.body and _terminates(s_.body[-1]):
+                        for t, v in cond_facts(s_.test, False):
+                            if isinstance(t, ast.Name) and t.id in carriers:
+                                out.setdefault(t.id, v)
+        if isinstance(a, ast.ExceptHandler):
+            pass
         if isinstance(a, ast.FunctionDef):
             break
         cur = a
     return out
+
+
+def _terminates(st) -> bool:
+    if isinstance(st, ast.Raise | ast.Return | ast.Continue | ast.Break):
+        return True
+    return isinstance(st, ast.Expr) and isinstance(st.value, ast.Call) and (dotted(st.value.func) or "") in ("sys.exit", "exit", "quit", "os._exit")
+
+
+_O_FLAGS = {"O_RDONLY": 0, "O_WRONLY": 1, "O_RDWR": 2, "O_CREAT": 64, "O_EXCL": 128, "O_NOCTTY": 256, "O_TRUNC": 512, "O_APPEND": 1024, "O_NONBLOCK": 2048, "O_SYNC": 1052672, "O_CLOEXEC": 524288, "O_NOFOLLOW": 131072, "O_BINARY": 0}
+
+
+def _check_os_open(L, f, call, carriers):
+    """os.open(path, flags): decided from the flag bits for each value of the clobber flag that can reach the call."""
+    from ..finite import fold_env
+    from ..fold import NotConstant
+    from ..util import local_defs
+
+    inst = f"{f.short}:os.open@{getattr(call, 'lineno', 0)}"
+    if len(call.args) < 2:
+        raise AnalysisError(f"{inst}: os.open without flags")
+    flags = call.args[1]
+    # inline single-definition locals
+    for _ in range(3):
+        class _Sub(ast.NodeTransformer):
+            def visit_Name(self, n):
+                if isinstance(n.ctx, ast.Load) and n.id not in carriers and n.id not in f.params():
+                    ds = local_defs(f, n.id)
+                    if len(ds) == 1:
+                        import copy
+
+                        return copy.deepcopy(ds[0])
+                return n
+
+        import copy
+
+        flags = _Sub().visit(copy.deepcopy(flags))
+    ctl = _control_flag_facts(call, carriers)
+    flag_names = sorted(carriers) or [None]
+    truncates_later = any(isinstance(c, ast.Call) and ((dotted(c.func) or "") in ("os.ftruncate", "os.truncate") or (isinstance(c.func, ast.Attribute) and c.func.attr == "truncate")) for c in walk_shallow(f.node))
+    for flag in flag_names:
+        for val in (False, True):
+            if flag is not None and flag in ctl and ctl[flag] != val:
+                continue
+            env = {f"os.{k}": v for k, v in _O_FLAGS.items()}
+            env.update(_O_FLAGS)
+            if flag is not None:
+                env[flag] = val
+            try:
+                F = fold_env(flags, env)
+            except NotConstant:
+                raise AnalysisError(f"{inst}: open flags '{norm(flags)[:60]}' do not fold for {flag}={val}") from None
+            if not isinstance(F, int) or isinstance(F, bool):
+                raise AnalysisError(f"{inst}: open flags '{norm(flags)[:60]}' do not fold to an integer")
+            if F & 3 == 0:
+                continue  # read-only
+            excl = (F & 128) and (F & 64)
+            who = f"{flag}={val}" if flag is not None else "any flag value"
+            if flag is None:
+                if not excl:
+                    raise AnalysisError(f"{inst}: write-capable os.open in a function that does not receive the clobber flag: not decided")
+                continue
+            if val is False:
+                L.check(bool(excl), "R2", f"{inst}[{who}]", "O_CREAT|O_EXCL: an existing file is never opened", f"with {who} the file is opened by os.open with flags {norm(call.args[1])[:60]} = {F:#o}, which lack O_CREAT|O_EXCL: an existing output is opened for writing although --no-clobber was given", f.loc(call), witness={"flags": F})
+            else:
+                if excl:
+                    L.ok("R2", f"{inst}[{who}]", "exclusive create (an existing file is handled by the FileExistsError branch)", f.loc(call))
+                    continue
+                if F & 512:
+                    L.ok("R2", f"{inst}[{who}]", "O_TRUNC: an existing file is emptied before it is rewritten", f.loc(call))
+                elif truncates_later:
+                    raise AnalysisError(f"{inst}: existing file opened without O_TRUNC and truncated by a later call: not decided")
+                else:
+                    L.fail(
+                        "R2", f"{inst}[{who}]",
+                        f"with {who} an existing file is opened by os.open with flags {norm(call.args[1])[:60]} = {F:#o}, without O_TRUNC, and nothing truncates it: when the new content is shorter the tail of the old file survives, so the output is not completely rewritten",
+                        f.loc(call), witness={"existing file": "10 lines", "new content": "3 lines", "result": "3 new lines followed by the old tail"},
+                    )
 
 
 def _check_mode(repo, L, f, call, mode, carriers, reach, ctl=None):
